@@ -800,6 +800,11 @@ def grp_spatial(cx, tier):
     cx.ob("C17.O6", "linsteps [0,1,3] num=[2,4]", "per-segment numbers of steps", c_lin([0, 1, 3], [2, 4], [0, F(1, 2), 1, F(3, 2), 2, F(5, 2), 3]))
     cx.ob("C17.O6", "linsteps [0,1,3,4] num=[2,4] (short)", "a num sequence shorter than the number of segments is continued with its last entry",
           c_lin([0, 1, 3, 4], [2, 4], [0, F(1, 2), 1, F(3, 2), 2, F(5, 2), 3, F(13, 4), F(7, 2), F(15, 4), 4]))
+    # segments with zero samples (the docstring example num=0 keeps the end point only; a zero in a num sequence skips that segment)
+    cx.ob("C17.O6", "linsteps [0,1/2,3/2,7/2] num=0", "no samples per segment: only the end point remains", c_lin([0, F(1, 2), F(3, 2), F(7, 2)], 0, [F(7, 2)]))
+    cx.ob("C17.O6", "linsteps [0,1,2] num=[4,0]", "a zero count for the last segment: its samples are skipped, the end point is still the last milestone", c_lin([0, 1, 2], [4, 0], [0, F(1, 4), F(1, 2), F(3, 4), 2]))
+    cx.ob("C17.O6", "linsteps [0,1,2] num=[0,2]", "a zero count for the first segment", c_lin([0, 1, 2], [0, 2], [1, F(3, 2), 2]))
+    cx.ob("C17.O6", "linsteps [0,1,2] num=0 endpoint=False", "nothing at all", c_lin([0, 1, 2], 0, [], endpoint=False))
     cx.ob("C17.O6", "linsteps endpoint=False", "endpoint=False omits the last point", c_lin([0, 1, 3], 2, [0, F(1, 2), 1, 2], endpoint=False))
     cx.ob("C17.O6", "linsteps [1,-1] num=4", "decreasing segment", c_lin([1, -1], 4, [1, F(1, 2), 0, F(-1, 2), -1]))
     cx.ob("C17.O6", "linsteps axis=1 axes=3", "axis embedding: steps placed in column `axis`, other columns hold `values`",
